@@ -3305,6 +3305,17 @@ func (s *SQLStore) PruneGraph(ctx context.Context,
 					"entry: %w", err)
 			}
 
+			// Like the KV store, we still prune any nodes that
+			// no longer have any channels: a node may have lost
+			// its last channel through a re-org or an explicit
+			// channel deletion since the last block that closed
+			// a channel of the graph.
+			prunedNodes, err = s.pruneGraphNodes(ctx, db)
+			if err != nil {
+				return fmt.Errorf("unable to prune graph "+
+					"nodes: %w", err)
+			}
+
 			return nil
 		}
 
